@@ -3,3 +3,4 @@ pub mod de;
 pub mod xlsx_sheet;
 pub mod xlsx_strings;
 pub mod shared_formula;
+pub mod numfmt;
